@@ -1,5 +1,5 @@
-CONSTANTS MaxDrv = 2  MaxDrvRev = 2  SayLens = {0, 1}  MaxPrints = 2  MaxPrints3 = 1  PrintLens = {2}  RingCap = 6  Bug = ""  Emit = TRUE
-CONSTANT Families = {"sort", "outcome", "pairs", "outcomeRev", "pairsRev"}
+CONSTANTS MaxDrv = 2  MaxDrvRev = 2  MaxFont = 2  SayLens = {0, 1}  MaxPrints = 2  MaxPrints3 = 1  PrintLens = {2}  RingCap = 6  Bug = ""  Emit = TRUE
+CONSTANT Families = {"sort", "outcome", "pairs", "outcomeRev", "pairsRev", "font"}
 CONSTANT Orders <- MCOrders4
 INIT Init
 NEXT Next
